@@ -14,12 +14,16 @@ Defs == SeqSet(Consts.defaults)
 T(d, s) == [d |-> d, s |-> s]
 Boundary == {T(-719162, 0), T(-1, 0), T(-1, 86399), T(0, 0), T(0, 1), T(24855, 11647), T(24855, 11648), T(19266, 0), T(2932896, 86399),
              T(19782, 43200), T(-25567, 1), T(10957, 0), T(11016, 86399)}
+\* instants around the turn of the current year and the next: the year-less print form is chosen by the year the instant
+\* has in the zone it is shown in, which within |offset| hours of 1 January differs from its UTC year
+YearEdges == {T(DaysFromCivil(y, 1, 1) + k[1], k[2]) : y \in {YearOfDay(Today), YearOfDay(Today) + 1},
+                                                       k \in {<<-1, 43200>>, <<-1, 75600>>, <<-1, 86399>>, <<0, 0>>, <<0, 7200>>, <<0, 43200>>}}
 Grid == {T(d, s) : d \in {k * (IF Big THEN 9973 ELSE 99991) - 700000 : k \in 0..(IF Big THEN 360 ELSE 36)}, s \in {0, 3661, 86399}}
 C(y, m, d) == [y |-> y, m |-> m, d |-> d]
 DateSet == {C(1, 1, 1), C(1969, 12, 31), C(1970, 1, 1), C(2000, 2, 29), C(2038, 1, 19), C(2038, 1, 20), C(2040, 1, 1), C(9999, 12, 31), C(0, 3, 1), [rel |-> 0], [rel |-> 1]}
        \cup {C(y, m, 15) : y \in {1600, 1900, 2022}, m \in {1, 6, 12}}
 DtDates == {C(1970, 1, 1), C(2000, 2, 29), C(2022, 10, 1), C(2038, 1, 19), C(1969, 12, 31), C(9999, 12, 31), C(0, 3, 1)}
-Lines == {[form |-> "unix_from", ts |-> t, z |-> z] : t \in Boundary \cup Grid, z \in Zones \cup {NoZone}}
+Lines == {[form |-> "unix_from", ts |-> t, z |-> z] : t \in Boundary \cup Grid \cup YearEdges, z \in Zones \cup {NoZone}}
     \cup {[form |-> "unix_round", ts |-> t, z |-> z] : t \in Boundary \cup Grid, z \in Zones \cup {NoZone}}
     \cup {[form |-> "unix_to_date", a |-> a] : a \in DateSet}
     \cup {[form |-> "unix_to_time", w |-> w] : w \in {0, 1800, 32707, 41400, 84600, 86399}}
